@@ -388,6 +388,21 @@ def shrink(plan_dict: dict, sig: str, max_exec: int = 250, wall_s: float = 60.0)
 
         keys2 = ddmin(keys, build_dec)
         best = build_dec(keys2)
+    # values toward their plain defaults (one field at a time; kept only if the same violation recurs)
+    DEFAULTS = {"gap": 0.004, "dur": 0.001, "stall": 0, "down": 0, "start_gap": 0.0}
+    for i, o in enumerate(best["ops"]):
+        for f, dv in DEFAULTS.items():
+            if f in o and o[f] != dv and isinstance(o[f], (int, float)) and not isinstance(o[f], bool):
+                c = json.loads(json.dumps(best))
+                c["ops"][i][f] = dv
+                if ok(c):
+                    best = c
+    for f, dv in (("tie_rate", 0.0), ("split_rate", 0.0), ("drift", 0.0)):
+        if best["knobs"].get(f) not in (None, dv):
+            c = json.loads(json.dumps(best))
+            c["knobs"][f] = dv
+            if ok(c):
+                best = c
     return best, n_exec[0]
 
 
